@@ -103,6 +103,19 @@ def disciplined : List Op → Bool → Bool
   | .spawn :: r, held => disciplined r held
   | .call _ :: r, held => disciplined r held
 
+/-- the second discipline of the loop thread: the document store is only written when no request
+task can be alive, i.e. after a database write / cancellation (which waits for every snapshot) and
+before the next spawn.  `q`: no task can be alive here; `held`: the guard is held. -/
+def storeQuiet : List Op → Bool → Bool → Bool
+  | [], _, _ => true
+  | .dbWrite :: r, _, h => storeQuiet r true h
+  | .spawn :: r, _, h => !h && storeQuiet r false h
+  | .acqVfsW :: r, q, _ => q && storeQuiet r q true
+  | .acqVfsR :: r, q, _ => q && storeQuiet r q true
+  | .relVfs :: r, q, _ => storeQuiet r q false
+  | .snap :: r, q, h => storeQuiet r q h
+  | .call _ :: r, q, h => storeQuiet r q h
+
 /-- a request task: holds an analysis snapshot from its creation until it ends; `held` counts the
 read guards of the document store it currently holds -/
 structure Task where
